@@ -26,11 +26,11 @@ from mxlpy.symbolic import to_symbolic_model
 from mxlpy.types import IntegrationFailure, Result
 
 if TYPE_CHECKING:
-    from collections.abc import Callable
+    from collections.abc import Callable, Iterable
 
     from mxlpy.integrators import IntegratorProtocol, IntegratorType
     from mxlpy.model import Model
-    from mxlpy.types import ArrayLike
+    from mxlpy.types import Array, ArrayLike
 
 _LOGGER = logging.getLogger(__name__)
 
@@ -123,11 +123,20 @@ class Simulator:
                     ),
                     _jac,
                 )
-                jac_fn = lambda t, x: _jac_fn(  # noqa: E731
-                    t,
-                    x,
-                    self.model._parameters.values(),  # noqa: SLF001
-                )
+                model = self.model
+                parameter_names = model.get_parameter_names()
+
+                def jac_fn(t: float, x: Iterable[float]) -> Array:
+                    # Current numeric values (not the Parameter containers),
+                    # including parameters defined by initial assignments
+                    if (cache := model._cache) is None:  # noqa: SLF001
+                        cache = model._create_cache()  # noqa: SLF001
+                    return _jac_fn(
+                        t,
+                        x,
+                        [cache.all_parameter_values[k] for k in parameter_names],
+                    )
+
 
             except Exception as e:  # noqa: BLE001
                 _LOGGER.warning(str(e), stacklevel=2)
